@@ -179,6 +179,11 @@ struct Run {
     k: usize,
     last_fin: i128,
     last_flags: u8,
+    // replay: the steps at which each task moves, the step being executed, number of steps, tickets handed out behind them
+    plan: HashMap<String, Vec<usize>>,
+    cur: usize,
+    nsteps: usize,
+    tail: usize,
 }
 
 impl Run {
@@ -387,11 +392,35 @@ impl Run {
     /// one actor message of task `name`: release it from the gate it is parked at, wait until it is parked again
     /// (anywhere) or has finished, record what happened.  `tickets`: ticket of its next arrival at each gate.
     #[allow(clippy::too_many_arguments)]
-    fn message_step(&mut self, name: &str, i: u64, exp: &str, x: &str, tickets: &[usize; 5], hint_done: bool,
+    fn message_step(&mut self, name: &str, i: u64, exp: &str, x: &str, tickets: Option<&[usize; 5]>, hint_done: bool,
                     nowait: bool, extra_msg: bool) -> Result<Outcome, String> {
         let (label, tk) = match self.tasks.get(name).and_then(|t| t.parked) {
             Some(p) => p,
             None => return Err(format!("{}: not parked", name)),
+        };
+        // a gate lets every ticket up to the released one through: tasks parked at the same gate with smaller tickets
+        // (the implementation took another path than the schedule assumed) send their message first, each as a step
+        // of its own, so that exactly one actor message happens per step
+        let mut guard = 0;
+        loop {
+            let before = self.tasks.iter().filter(|(n, _)| n.as_str() != name).filter_map(|(n, t)| t.parked.map(|p| (n.clone(), p)))
+                .filter(|(_, p)| p.0 == label && p.1 < tk).min_by_key(|(_, p)| p.1);
+            match before {
+                Some((other, _)) if guard < 8 => {
+                    guard += 1;
+                    let oi = if other.starts_with('q') { other[1..].parse::<u64>().unwrap_or(0) } else { 0 };
+                    self.message_step(&other, oi, "-", "-", None, false, false, true)?;
+                }
+                _ => break,
+            }
+        }
+        let own: [usize; 5];
+        let tickets: &[usize; 5] = match tickets {
+            Some(t) => t,
+            None => {
+                own = [self.ticket_for(name); 5];
+                &own
+            }
         };
         self.prepare_all(tickets);
         let snap = self.gates.snapshot();
@@ -449,6 +478,18 @@ impl Run {
             return Err(format!("{} {}: neither parked nor finished within the time limit", name, a));
         }
         Ok(out)
+    }
+
+    /// replay: ticket of the task's next arrival = 1 + index of its next step in the schedule; behind all if none
+    fn ticket_for(&mut self, name: &str) -> usize {
+        let cur = self.cur;
+        match self.plan.get(name).and_then(|v| v.iter().find(|k| **k > cur)) {
+            Some(k) => k + 1,
+            None => {
+                self.tail += 1;
+                self.nsteps + self.tail
+            }
+        }
     }
 
     /// a composite that sent no actor message at all
@@ -531,7 +572,7 @@ fn new_run(rt: &tokio::runtime::Runtime, id: Value, port: u16) -> Run {
     }
     let mut run = Run {
         rt: rt.handle().clone(), shared, gates, port, id: id.clone(), tasks: HashMap::new(), ticks: Vec::new(), latch: false,
-        keys_dir, k: 0, last_fin: 0, last_flags: 0,
+        keys_dir, k: 0, last_fin: 0, last_flags: 0, plan: HashMap::new(), cur: 0, nsteps: 0, tail: 0,
     };
     std::thread::sleep(Duration::from_micros(300));
     let t1 = now_nanos();
@@ -556,7 +597,12 @@ fn run_replay(rt: &tokio::runtime::Runtime, spec: &Value, port: u16) {
         label_of(a).is_some() || a == "cont" || a == "drain"
     };
     let nsteps = steps.len();
-    let mut tail = 0usize;
+    run.nsteps = nsteps;
+    for (k, s) in steps.iter().enumerate() {
+        if moves(s) {
+            run.plan.entry(key(s)).or_default().push(k);
+        }
+    }
     // tag observer (race phases)
     let observing = Arc::new(AtomicBool::new(false));
     let obs: Arc<Mutex<Vec<(i128, Option<String>, u64)>>> = Arc::new(Mutex::new(Vec::new()));
@@ -613,15 +659,8 @@ fn run_replay(rt: &tokio::runtime::Runtime, spec: &Value, port: u16) {
             _ => {
                 let name = key(s);
                 let nowait = s["nowait"].as_bool().unwrap_or(false);
-                // ticket of the task's next arrival: 1 + index of its next step; behind everything if it has none
+                run.cur = k;
                 let next = steps[k + 1..].iter().position(|n| key(n) == name && moves(n)).map(|p| k + 1 + p);
-                let nt = match next {
-                    Some(n) => n + 1,
-                    None => {
-                        tail += 1;
-                        nsteps + tail
-                    }
-                };
                 // does the schedule expect the composite to return after this message? (only a hint for probing)
                 let hint_done = match next {
                     Some(n) => is_start(steps[n]["a"].as_str().unwrap_or("")),
@@ -632,7 +671,7 @@ fn run_replay(rt: &tokio::runtime::Runtime, spec: &Value, port: u16) {
                     let mut guard = 0;
                     while run.is_parked(&name) && guard < 16 {
                         guard += 1;
-                        if let Err(why) = run.message_step(&name, i, "-", "-", &[k + 1; 5], false, false, true) {
+                        if let Err(why) = run.message_step(&name, i, "-", "-", None, false, false, true) {
                             run.desync(why);
                             stuck = true;
                             break 'steps;
@@ -644,7 +683,7 @@ fn run_replay(rt: &tokio::runtime::Runtime, spec: &Value, port: u16) {
                         let mut guard = 0;
                         while run.is_parked("ls") && guard < 16 {
                             guard += 1;
-                            if let Err(why) = run.message_step("ls", 0, "-", "-", &[k + 1; 5], true, false, true) {
+                            if let Err(why) = run.message_step("ls", 0, "-", "-", None, true, false, true) {
                                 run.desync(why);
                                 stuck = true;
                                 break 'steps;
@@ -671,7 +710,7 @@ fn run_replay(rt: &tokio::runtime::Runtime, spec: &Value, port: u16) {
                     let mut guard = 0;
                     while run.is_parked(&name) && guard < 16 {
                         guard += 1;
-                        if let Err(why) = run.message_step(&name, i, "drain", x, &[nt; 5], false, false, false) {
+                        if let Err(why) = run.message_step(&name, i, "drain", x, None, false, false, false) {
                             run.desync(why);
                             stuck = true;
                             break 'steps;
@@ -686,7 +725,7 @@ fn run_replay(rt: &tokio::runtime::Runtime, spec: &Value, port: u16) {
                 if nowait && race_t0.is_none() {
                     race_t0 = Some(Instant::now());
                 }
-                if let Err(why) = run.message_step(&name, i, a, x, &[nt; 5], hint_done, nowait, false) {
+                if let Err(why) = run.message_step(&name, i, a, x, None, hint_done, nowait, false) {
                     run.desync(why);
                     stuck = true;
                     break;
@@ -713,9 +752,9 @@ fn run_replay(rt: &tokio::runtime::Runtime, spec: &Value, port: u16) {
             Some((n, _)) => n,
             None => break,
         };
-        tail += 1;
+        run.cur = nsteps;
         let i = if name.starts_with('q') { name[1..].parse::<u64>().unwrap_or(0) } else { 0 };
-        if let Err(why) = run.message_step(&name, i, "-", "-", &[nsteps + tail; 5], false, false, true) {
+        if let Err(why) = run.message_step(&name, i, "-", "-", None, false, false, true) {
             run.desync(why);
             break;
         }
@@ -888,7 +927,15 @@ fn run_auto(rt: &tokio::runtime::Runtime, spec: &Value, port: u16) {
             let t = run.tasks.get(&name).unwrap();
             x = if t.op == "Q" { "-".to_string() } else { t.op.clone() };
         }
-        match run.message_step(&name, i, "-", &x, &tickets, false, false, false) {
+        // the gate being released stays open up to the released ticket: the task must come back behind it
+        if let Some((pl, ptk)) = run.tasks.get(&name).and_then(|t| t.parked) {
+            for (n, l) in LABELS.iter().enumerate() {
+                if *l == pl && tickets[n] <= ptk {
+                    tickets[n] = next_ticket[l];
+                }
+            }
+        }
+        match run.message_step(&name, i, "-", &x, Some(&tickets), false, false, false) {
             Ok(out) => {
                 if let Outcome::Gate(l, n) = out {
                     if n == next_ticket[l] {
